@@ -30,6 +30,14 @@ class _Box:
         self.n = n
 
 
+def extra_obligations():
+    """enqueue / finish / cancel / __anext__ regenerated from /repo's queue.py as MiniPy terms; each is proved to refine the
+    corresponding step of the model `Haiway.Queue` (for every buffer, every element value, every finish reason)"""
+    from harness import core, regen
+
+    return regen.check("queue", core.REPO, core.LEAN)
+
+
 def corpus():
     return [
         "recv run e1 cancelrecv run recv run",            # hand-over then cancel before wake-up (lost element on pinned tree)
